@@ -10,7 +10,7 @@ print('known', d['coverage'].get('known_findings_hit'), 'refusals', d['coverage'
 c = collections.Counter(); ex = {}
 for f in glob.glob(f'replays/{pid}/*.json'):
     o = json.load(open(f))
-    for fl in o['failures']:
+    for fl in o.get('failures', []):
         k = (o.get('config'), fl['kind'], fl.get('op'), tuple(fl.get('flags') or ()), fl.get('detail', '')[:60])
         c[k] += 1; ex.setdefault(k, f)
 for k, v in c.most_common(40):
